@@ -171,6 +171,11 @@ static void do_crl(char **w) {
 	if (!c.p) { printf("ERR issue"); return; }
 	if (x509_crl_get_details(c.p, c.n, &ver, &ialg, &issuer, &il, &tu, &nu, &rev, &rl, &ex, &exl, &oalg, &sig, &sigl) != 1) { printf("ERR parse"); free(c.p); return; }
 	put_tbs(c.p, c.n);
+	{	/* the reader that takes the object from a stream must hand back the very same fields */
+		int v2, ia2, oa2; const uint8_t *is2, *rv2, *ex2, *sg2, *cp = c.p; size_t il2, rl2, exl2, sgl2, cl = c.n; time_t tu2, nu2;
+		if (x509_crl_from_der_ex(&v2, &ia2, &is2, &il2, &tu2, &nu2, &rv2, &rl2, &ex2, &exl2, &oa2, &sg2, &sgl2, &cp, &cl) != 1 || cl != 0
+			|| v2 != ver || ia2 != ialg || oa2 != oalg || is2 != issuer || il2 != il || tu2 != tu || nu2 != nu || rv2 != rev || rl2 != rl || ex2 != ex || exl2 != exl || sg2 != sig || sgl2 != sigl)
+			printf(" (from_der_ex-differs)"); }
 	printf(" ver=%d alg=%s/%s", ver, ialg == OID_sm2sign_with_sm3 ? "sm2sm3" : "other", oalg == OID_sm2sign_with_sm3 ? "sm2sm3" : "other");
 	putfield("issuer", issuer, il); printf(" this=%lld next=%lld", (long long)tu, (long long)nu);
 	putfield("revoked", rev, rl); putfield("exts", ex, exl);
@@ -213,9 +218,16 @@ static void do_name(char *spec) {
 	if (!ok) { printf("ERR"); return; }
 	printf("der="); puthex(name, len);
 	printf(" check=%d", x509_name_check(name, len) == 1);
+	{	/* walking the name RDN by RDN: as many as were added, each with exactly one attribute, nothing left */
+		const uint8_t *cp = name, *v, *more; size_t cl = len, vl, ml, n = 0; int oid, tag, bad = 0;
+		while (cl && !bad) { if (x509_rdn_from_der(&oid, &tag, &v, &vl, &more, &ml, &cp, &cl) != 1 || more || ml) bad = 1; else n++; }
+		if (bad) printf(" rdns=ERR"); else printf(" rdns=%zu", n); }
 	for (i = 0; i < 7; i++) if (seen[i]) {
 		int tag = 0; const uint8_t *v = NULL; size_t vl = 0;
-		if (x509_name_get_value_by_type(name, len, types[i].oid, &tag, &v, &vl) == 1) { printf(" %s=%d:", types[i].n, tag); puthex(v, vl); }
+		if (x509_name_get_value_by_type(name, len, types[i].oid, &tag, &v, &vl) == 1) { printf(" %s=%d:", types[i].n, tag); puthex(v, vl);
+			if (types[i].oid == OID_at_common_name) {     /* the shorthand must answer what the general lookup answered */
+				int t2 = 0; const uint8_t *v2 = NULL; size_t v2l = 0;
+				if (x509_name_get_common_name(name, len, &t2, &v2, &v2l) != 1 || t2 != tag || v2 != v || v2l != vl) printf("(get_common_name-differs)"); } }
 		else printf(" %s=ERR", types[i].n);
 	}
 }
@@ -714,6 +726,252 @@ static void do_gnames(char *spec, int want) {
 	if (r == 1) { printf(" first=%d:", want); puthex(d, dl); } else printf(" first=%s", r == 0 ? "none" : "ERR");
 }
 
+/* ------------------------------------------------------------------ wave 5: payload codecs of the extensions and PEM wrappers (round-trip oracle)
+ * payload <kind> <variant>: encode with x509_*_to_der from fixed arguments (two variants), decode with the matching _from_der, compare every field,
+ * nothing may be left over.  Prints ok / MISMATCH / ENC-ERR / DEC-ERR. */
+#define RT(cond) do { printf("der="); puthex(b, l); printf(" %s", (cond) ? "ok" : "MISMATCH"); return; } while (0)
+int x509_uri_as_general_names_from_der_ex(int tag, const uint8_t **uri, size_t *urilen, const uint8_t **in, size_t *inlen);   /* exported, not in the header */
+int x509_certificate_polices_check(const uint8_t *d, size_t dlen);
+static void do_payload(const char *kind, int var) {
+	uint8_t b[1024]; uint8_t *p = b; size_t l = 0; const uint8_t *cp = b; size_t cl;
+	static const uint32_t oid1[] = { 1, 2, 3, 4, 5 }, oid2[] = { 2, 5, 29, 32, 0 }, oid3[] = { 1, 2, 840, 113549, 1, 9, 14 };
+	static const uint8_t val[] = { 0x0c, 0x03, 'a', 'b', 'c' }; const uint8_t *txt = (const uint8_t *)(var ? "second text" : "text"); size_t txtl = strlen((const char *)txt);
+	if (!strcmp(kind, "other_name")) { uint32_t n[32]; size_t nc = 0; const uint8_t *v; size_t vl;
+		if (x509_other_name_to_der(var ? oid3 : oid1, var ? 7 : 5, val, sizeof val, &p, &l) != 1) { printf("ENC-ERR"); return; } cl = l;
+		if (x509_other_name_from_der(n, &nc, &v, &vl, &cp, &cl) != 1 || cl) { printf("DEC-ERR"); return; }
+		RT(nc == (var ? 7u : 5u) && !memcmp(n, var ? oid3 : oid1, nc * 4) && vl == sizeof val && !memcmp(v, val, vl)); }
+	if (!strcmp(kind, "edi_party_name")) { int t1 = 777, t2 = 777; const uint8_t *a = b, *q = b; size_t al = 777, ql = 777;   /* sentinels: an absent optional must be reported, not left alone */
+		if (x509_edi_party_name_to_der(var ? ASN1_TAG_UTF8String : -1, var ? txt : NULL, var ? txtl : 0, ASN1_TAG_PrintableString, (const uint8_t *)"party", 5, &p, &l) != 1) { printf("ENC-ERR"); return; } cl = l;
+		if (x509_edi_party_name_from_der(&t1, &a, &al, &t2, &q, &ql, &cp, &cl) != 1 || cl) { printf("DEC-ERR"); return; }
+		RT(t2 == ASN1_TAG_PrintableString && ql == 5 && !memcmp(q, "party", 5) && (var ? (t1 == ASN1_TAG_UTF8String && al == txtl && !memcmp(a, txt, al)) : al == 0)); }
+	if (!strcmp(kind, "display_text")) { int t; const uint8_t *d; size_t dl; int tag = var ? ASN1_TAG_UTF8String : ASN1_TAG_IA5String;
+		if (x509_display_text_to_der(tag, txt, txtl, &p, &l) != 1) { printf("ENC-ERR"); return; } cl = l;
+		if (x509_display_text_from_der(&t, &d, &dl, &cp, &cl) != 1 || cl) { printf("DEC-ERR"); return; }
+		RT(t == tag && dl == txtl && !memcmp(d, txt, dl)); }
+	if (!strcmp(kind, "notice_reference")) { int nums[4] = { 1, 200, 70000, 5 }, out[8]; size_t oc = 0; int t; const uint8_t *o; size_t ol; size_t cnt = var ? 4 : 1;
+		if (x509_notice_reference_to_der(ASN1_TAG_UTF8String, txt, txtl, nums, cnt, &p, &l) != 1) { printf("ENC-ERR"); return; } cl = l;
+		if (x509_notice_reference_from_der(&t, &o, &ol, out, &oc, 8, &cp, &cl) != 1 || cl) { printf("DEC-ERR"); return; }
+		RT(t == ASN1_TAG_UTF8String && ol == txtl && !memcmp(o, txt, ol) && oc == cnt && !memcmp(out, nums, cnt * sizeof(int))); }
+	if (!strcmp(kind, "user_notice")) { int nums[2] = { 3, 4 }, out[8]; size_t oc = 777; int t1 = 777, t2 = 777; const uint8_t *o = b, *e = b; size_t ol = 777, el = 777;
+		if (x509_user_notice_to_der(var ? ASN1_TAG_UTF8String : -1, var ? txt : NULL, var ? txtl : 0, var ? nums : NULL, var ? 2 : 0, ASN1_TAG_UTF8String, (const uint8_t *)"explicit", 8, &p, &l) != 1) { printf("ENC-ERR"); return; } cl = l;
+		if (x509_user_notice_from_der(&t1, &o, &ol, out, &oc, 8, &t2, &e, &el, &cp, &cl) != 1 || cl) { printf("DEC-ERR"); return; }
+		RT(t2 == ASN1_TAG_UTF8String && el == 8 && !memcmp(e, "explicit", 8) && (var ? (ol == txtl && oc == 2 && out[0] == 3 && out[1] == 4) : (ol == 0 && oc == 0))); }
+	if (!strcmp(kind, "policy_qualifier_info")) { int oid = var ? OID_qt_unotice : OID_qt_cps, o2; const uint8_t *q; size_t ql;
+		if (x509_policy_qualifier_info_to_der(oid, val, sizeof val, &p, &l) != 1) { printf("ENC-ERR"); return; } cl = l;
+		if (x509_policy_qualifier_info_from_der(&o2, &q, &ql, &cp, &cl) != 1 || cl) { printf("DEC-ERR"); return; }
+		RT(o2 == oid && ql == sizeof val && !memcmp(q, val, ql)); }
+	if (!strcmp(kind, "policy_information")) { int o2 = 777; uint32_t n[32]; size_t nc = 777; const uint8_t *q = b; size_t ql = 777;
+		if (x509_policy_information_to_der(var ? OID_undef : OID_any_policy, var ? oid1 : NULL, var ? 5 : 0, var ? val : NULL, var ? sizeof val : 0, &p, &l) != 1) { printf("ENC-ERR"); return; } cl = l;
+		if (x509_policy_information_from_der(&o2, n, &nc, &q, &ql, &cp, &cl) != 1 || cl) { printf("DEC-ERR"); return; }
+		RT(var ? (nc == 5 && !memcmp(n, oid1, 20) && ql == sizeof val && !memcmp(q, val, ql)) : (o2 == OID_any_policy && ql == 0)); }
+	if (!strcmp(kind, "policy_mapping")) { int a, c2; uint32_t n1[32], n2[32]; size_t c1 = 0, c3 = 0;
+		if (x509_policy_mapping_to_der(var ? OID_undef : OID_any_policy, var ? oid1 : NULL, var ? 5 : 0, OID_undef, oid2, 5, &p, &l) != 1) { printf("ENC-ERR"); return; } cl = l;
+		if (x509_policy_mapping_from_der(&a, n1, &c1, &c2, n2, &c3, &cp, &cl) != 1 || cl) { printf("DEC-ERR"); return; }
+		RT(c3 == 5 && !memcmp(n2, oid2, 20) && (var ? (c1 == 5 && !memcmp(n1, oid1, 20)) : a == OID_any_policy)); }
+	if (!strcmp(kind, "attribute")) { int o; uint32_t n[32]; size_t nc = 0; const uint8_t *v; size_t vl;
+		if (x509_attribute_to_der(var ? oid3 : oid1, var ? 7 : 5, val, sizeof val, &p, &l) != 1) { printf("ENC-ERR"); return; } cl = l;
+		if (x509_attribute_from_der(&o, n, &nc, &v, &vl, &cp, &cl) != 1 || cl) { printf("DEC-ERR"); return; }
+		RT(nc == (var ? 7u : 5u) && !memcmp(n, var ? oid3 : oid1, nc * 4) && vl == sizeof val && !memcmp(v, val, vl)); }
+	if (!strcmp(kind, "general_subtree")) { int ch = 777, mn = 777, mx = 777; const uint8_t *bs = b; size_t bl = 777;
+		if (x509_general_subtree_to_der(X509_gn_dns_name, (const uint8_t *)"example.org", 11, var ? 2 : -1, var ? 7 : -1, &p, &l) != 1) { printf("ENC-ERR"); return; } cl = l;
+		if (x509_general_subtree_from_der(&ch, &bs, &bl, &mn, &mx, &cp, &cl) != 1 || cl) { printf("DEC-ERR"); return; }
+		RT(ch == X509_gn_dns_name && bl == 11 && !memcmp(bs, "example.org", 11) && (var ? (mn == 2 && mx == 7) : (mx == -1 && (mn == 0 || mn == -1)))); }
+	if (!strcmp(kind, "name_constraints")) { const uint8_t *a = b, *e = b; size_t al = 777, el = 777;
+		if (x509_name_constraints_to_der(val, sizeof val, var ? val : NULL, var ? 3 : 0, &p, &l) != 1) { printf("ENC-ERR"); return; } cl = l;
+		if (x509_name_constraints_from_der(&a, &al, &e, &el, &cp, &cl) != 1 || cl) { printf("DEC-ERR"); return; }
+		RT(al == sizeof val && !memcmp(a, val, al) && el == (var ? 3u : 0u)); }
+	if (!strcmp(kind, "policy_constraints")) { int a = 777, c2 = 777;
+		if (x509_policy_constraints_to_der(var ? 3 : -1, var ? -1 : 300, &p, &l) != 1) { printf("ENC-ERR"); return; } cl = l;
+		if (x509_policy_constraints_from_der(&a, &c2, &cp, &cl) != 1 || cl) { printf("DEC-ERR"); return; }
+		RT(a == (var ? 3 : -1) && c2 == (var ? -1 : 300)); }
+	if (!strcmp(kind, "issuing_distribution_point")) { int ch = 777, u = 777, c2 = 777, r = 777, ind = 777, at = 777; const uint8_t *d = b; size_t dl = 777;
+		if (x509_issuing_distribution_point_to_der("http://a.example/x.crl", 22, var, -1, var ? 5 : -1, var ? -1 : 1, -1, &p, &l) != 1) { printf("ENC-ERR"); return; } cl = l;
+		if (x509_issuing_distribution_point_from_der(&ch, &d, &dl, &u, &c2, &r, &ind, &at, &cp, &cl) != 1 || cl) { printf("DEC-ERR"); return; }
+		if (getenv("C15_DEBUG")) fprintf(stdout, "[ch=%d dl=%zu u=%d c2=%d r=%d ind=%d at=%d] ", ch, dl, u, c2, r, ind, at);
+		RT(dl > 22 && dl != 777 && u == var && c2 == -1 && at == -1 && (var ? (r == 5 && ind == -1) : (ind == 1 && r == -1))); }
+	if (!strcmp(kind, "uri_as_general_names")) { const uint8_t *u; size_t ul; int tag = var ? ASN1_TAG_EXPLICIT(0) : ASN1_TAG_SEQUENCE;
+		if (x509_uri_as_general_names_to_der_ex(tag, "http://a.example/", 17, &p, &l) != 1) { printf("ENC-ERR"); return; } cl = l;
+		if (x509_uri_as_general_names_from_der_ex(tag, &u, &ul, &cp, &cl) != 1 || cl) { printf("DEC-ERR"); return; }
+		RT(ul == 17 && !memcmp(u, "http://a.example/", 17)); }
+	if (!strcmp(kind, "explicit_directory_name")) { int t; const uint8_t *d; size_t dl;
+		if (x509_explicit_directory_name_to_der(var, ASN1_TAG_UTF8String, txt, txtl, &p, &l) != 1) { printf("ENC-ERR"); return; } cl = l;
+		if (x509_explicit_directory_name_from_der(var, &t, &d, &dl, &cp, &cl) != 1 || cl) { printf("DEC-ERR"); return; }
+		RT(t == ASN1_TAG_UTF8String && dl == txtl && !memcmp(d, txt, dl)); }
+	if (!strcmp(kind, "gn_registered_id") || !strcmp(kind, "gn_other_name") || !strcmp(kind, "gn_edi_party_name")) { int ch; const uint8_t *d; size_t dl; int r;
+		if (!strcmp(kind, "gn_registered_id")) r = x509_general_names_add_registered_id(b, &l, sizeof b, var ? oid3 : oid1, var ? 7 : 5);
+		else if (!strcmp(kind, "gn_other_name")) r = x509_general_names_add_other_name(b, &l, sizeof b, oid1, 5, val, sizeof val);
+		else r = x509_general_names_add_edi_party_name(b, &l, sizeof b, -1, NULL, 0, ASN1_TAG_PrintableString, (const uint8_t *)"party", 5);
+		if (r != 1) { printf("ENC-ERR"); return; } cl = l;
+		if (x509_general_name_from_der(&ch, &d, &dl, &cp, &cl) != 1 || cl) { printf("DEC-ERR"); return; }
+		RT(ch == (!strcmp(kind, "gn_registered_id") ? 8 : !strcmp(kind, "gn_other_name") ? 0 : 5) && dl > 0); }
+	if (!strcmp(kind, "validity_add_days")) { time_t na = 0; int days = var; int r = x509_validity_add_days(&na, 1700000000, days);      /* var = number of days */
+		if (r == 1) printf("1 %lld", (long long)na); else printf("ERR"); return; }
+	if (!strcmp(kind, "stubs")) {   /* builders that are declared but only return -1 */
+		size_t dl = 0; printf("%d %d %d", x509_certificate_policies_add_policy_information(b, &dl, sizeof b, OID_any_policy, NULL, 0, NULL, 0),
+			x509_certificate_polices_check(b, 0), x509_general_subtrees_add_general_subtree(b, &dl, sizeof b, X509_gn_dns_name, (const uint8_t *)"a", 1, -1, -1)); return; }
+	printf("ERR kind");
+}
+/* pemrt <cert|certs|req|crl>: PEM out to a temporary file and back, compare */
+static void do_pemrt(const char *kind) {
+	uint8_t name[256]; size_t namelen = 0; uint8_t serial[4] = { 8, 8, 8, 8 }; uint8_t obj[2048], back[2048]; uint8_t *q = obj; size_t ol = 0, bl = 0; FILE *fp = tmpfile(); int r1 = -9, r2 = -9;
+	x509_name_set(name, &namelen, sizeof name, "CN", NULL, NULL, "VERIF", NULL, "pem");
+	if (!fp) { printf("ERR tmpfile"); return; }
+	if (!strcmp(kind, "cert") || !strcmp(kind, "certs")) {
+		x509_cert_sign_to_der(X509_version_v3, serial, 4, OID_sm2sign_with_sm3, name, namelen, 1699990000, 1700090000, name, namelen, &keys[1], NULL, 0, NULL, 0, NULL, 0, &keys[1], SM2_DEFAULT_ID, SM2_DEFAULT_ID_LENGTH, &q, &ol);
+		if (!strcmp(kind, "certs")) { serial[0] = 9; x509_cert_sign_to_der(X509_version_v3, serial, 4, OID_sm2sign_with_sm3, name, namelen, 1699990000, 1700090000, name, namelen, &keys[2], NULL, 0, NULL, 0, NULL, 0, &keys[1], SM2_DEFAULT_ID, SM2_DEFAULT_ID_LENGTH, &q, &ol);
+			r1 = x509_certs_to_pem(obj, ol, fp); rewind(fp); r2 = x509_certs_from_pem(back, &bl, sizeof back, fp); }
+		else { r1 = x509_cert_to_pem(obj, ol, fp); rewind(fp); r2 = x509_cert_from_pem(back, &bl, sizeof back, fp); }
+	} else if (!strcmp(kind, "req")) {
+		x509_req_sign_to_der(X509_version_v1, name, namelen, &keys[1], name, 0, OID_sm2sign_with_sm3, &keys[1], SM2_DEFAULT_ID, SM2_DEFAULT_ID_LENGTH, &q, &ol);
+		r1 = x509_req_to_pem(obj, ol, fp); rewind(fp); r2 = x509_req_from_pem(back, &bl, sizeof back, fp);
+	} else if (!strcmp(kind, "bysubject")) {
+		x509_cert_sign_to_der(X509_version_v3, serial, 4, OID_sm2sign_with_sm3, name, namelen, 1699990000, 1700090000, name, namelen, &keys[1], NULL, 0, NULL, 0, NULL, 0, &keys[1], SM2_DEFAULT_ID, SM2_DEFAULT_ID_LENGTH, &q, &ol);
+		r1 = x509_cert_to_pem(obj, ol, fp); rewind(fp); r2 = x509_cert_from_pem_by_subject(back, &bl, sizeof back, name, namelen, fp);
+	}
+	else if (!strncmp(kind, "new", 3)) {    /* the allocating file readers of x509_new.c: named file in, exactly the object back; a missing file is refused and stores nothing */
+		char path[] = "/tmp/c15_new_XXXXXX"; int fd = mkstemp(path); FILE *nf = fd >= 0 ? fdopen(fd, "w+") : NULL; uint8_t *got = NULL, *keep = (uint8_t *)obj; size_t gl = 0; int r0;
+		if (!nf) { printf("ERR mkstemp"); fclose(fp); return; }
+		if (!strcmp(kind, "newcert") || !strcmp(kind, "newcerts")) {
+			x509_cert_sign_to_der(X509_version_v3, serial, 4, OID_sm2sign_with_sm3, name, namelen, 1699990000, 1700090000, name, namelen, &keys[1], NULL, 0, NULL, 0, NULL, 0, &keys[1], SM2_DEFAULT_ID, SM2_DEFAULT_ID_LENGTH, &q, &ol);
+			if (!strcmp(kind, "newcerts")) { serial[0] = 9; x509_cert_sign_to_der(X509_version_v3, serial, 4, OID_sm2sign_with_sm3, name, namelen, 1699990000, 1700090000, name, namelen, &keys[2], NULL, 0, NULL, 0, NULL, 0, &keys[1], SM2_DEFAULT_ID, SM2_DEFAULT_ID_LENGTH, &q, &ol);
+				r1 = x509_certs_to_pem(obj, ol, nf); fflush(nf); r2 = x509_certs_new_from_file(&got, &gl, path); got = got; keep = obj; r0 = x509_certs_new_from_file(&keep, &bl, "/tmp/c15_no_such_file"); }
+			else { r1 = x509_cert_to_pem(obj, ol, nf); fflush(nf); r2 = x509_cert_new_from_file(&got, &gl, path); keep = obj; r0 = x509_cert_new_from_file(&keep, &bl, "/tmp/c15_no_such_file"); }
+		} else {
+			x509_req_sign_to_der(X509_version_v1, name, namelen, &keys[1], name, 0, OID_sm2sign_with_sm3, &keys[1], SM2_DEFAULT_ID, SM2_DEFAULT_ID_LENGTH, &q, &ol);
+			r1 = x509_req_to_pem(obj, ol, nf); fflush(nf);
+			if (!strcmp(kind, "newreqfp")) { rewind(nf); r2 = x509_req_new_from_pem(&got, &gl, nf); keep = obj; r0 = x509_req_new_from_pem(&keep, &bl, NULL); }
+			else { r2 = x509_req_new_from_file(&got, &gl, path); keep = obj; r0 = x509_req_new_from_file(&keep, &bl, "/tmp/c15_no_such_file"); }
+		}
+		fclose(nf); unlink(path); fclose(fp);
+		printf("to_pem=%d from_pem=%d same=%d missing-refused=%d", r1, r2, got && gl == ol && !memcmp(got, obj, ol), r0 != 1 && keep == obj);
+		free(got); return;
+	}
+	fclose(fp);
+	printf("to_pem=%d from_pem=%d same=%d", r1, r2, bl == ol && !memcmp(back, obj, ol));
+}
+
+
+/* ---- printall <cert|crl|req>: the text renderers on a well-formed object that carries every extension the builders can
+   compose (nested payloads made with the *_to_der writers); every renderer that reports a status must report success */
+static size_t rich_general_names(uint8_t *g, size_t max, const uint8_t *name, size_t namelen) {
+	static const uint32_t oid1[] = { 1, 2, 3, 4, 5 }; static const uint8_t val[] = { 0x0c, 0x03, 'a', 'b', 'c' }, ip[4] = { 192, 0, 2, 1 }; size_t l = 0; int ok = 1;
+	ok &= x509_general_names_add_other_name(g, &l, max, oid1, 5, val, sizeof val) == 1;
+	ok &= x509_general_names_add_general_name(g, &l, max, X509_gn_rfc822_name, (const uint8_t *)"a@b.example", 11) == 1;
+	ok &= x509_general_names_add_general_name(g, &l, max, X509_gn_dns_name, (const uint8_t *)"www.example.org", 15) == 1;
+	ok &= x509_general_names_add_general_name(g, &l, max, X509_gn_directory_name, name, namelen) == 1;
+	ok &= x509_general_names_add_edi_party_name(g, &l, max, ASN1_TAG_UTF8String, (const uint8_t *)"assigner", 8, ASN1_TAG_PrintableString, (const uint8_t *)"party", 5) == 1;
+	ok &= x509_general_names_add_general_name(g, &l, max, X509_gn_uniform_resource_identifier, (const uint8_t *)"http://a.example/", 17) == 1;
+	ok &= x509_general_names_add_general_name(g, &l, max, X509_gn_ip_address, ip, 4) == 1;
+	ok &= x509_general_names_add_registered_id(g, &l, max, oid1, 5) == 1;
+	return ok ? l : 0;
+}
+static void do_printall(const char *kind) {
+	static const uint32_t oid1[] = { 1, 2, 3, 4, 5 }, oid2[] = { 2, 5, 29, 32, 1 }; static const uint8_t val[] = { 0x0c, 0x03, 'a', 'b', 'c' };
+	static const int eku[] = { OID_kp_server_auth, OID_kp_client_auth, OID_kp_ocsp_signing };
+	uint8_t name[256], gns[1024], ex[8192], t1[1024], t2[1024], raw[32]; size_t namelen = 0, gl, el = 0, l1, l2, i; uint8_t *p; uint8_t serial[4] = { 7, 7, 7, 7 };
+	const char *uri = "http://crl.example/ca.crl", *uri2 = "http://ocsp.example/"; FILE *fp = tmpfile(); int ok = 1, r_top = -9, r_exts = -9, r_gns = -9, r_name = -9, r_more = 1; long size;
+	if (!fp) { printf("ERR tmpfile"); return; }
+	for (i = 0; i < sizeof raw; i++) raw[i] = (uint8_t)(i + 1);
+	x509_name_set(name, &namelen, sizeof name, "CN", "Beijing", "Haidian", "VERIF", "unit", "print");
+	gl = rich_general_names(gns, sizeof gns, name, namelen); if (!gl) { printf("ERR gns"); fclose(fp); return; }
+	r_name = x509_name_print(fp, 0, 0, "name", name, namelen);
+	r_gns = x509_general_names_print(fp, 0, 0, "generalNames", gns, gl);
+	if (!strcmp(kind, "cert")) {
+		uint8_t *cert, *q; size_t clen = 0; const uint8_t *e2; size_t e2l;
+		ok &= x509_exts_add_authority_key_identifier(ex, &el, sizeof ex, -1, raw, 20, gns, gl, serial, 4) == 1;
+		ok &= x509_exts_add_subject_key_identifier(ex, &el, sizeof ex, -1, raw, 20) == 1;
+		ok &= x509_exts_add_key_usage(ex, &el, sizeof ex, X509_critical, 0x1ff) == 1;
+		/* certificatePolicies: anyPolicy with a CPS pointer and a user notice; a policy given by arcs without qualifiers */
+		{	int nums[2] = { 1, 70000 }; uint8_t un[256], cps[64], *u = un, *c = cps; size_t unl = 0, cpsl = 0; l1 = 0; l2 = 0;
+			ok &= x509_user_notice_to_der(ASN1_TAG_UTF8String, (const uint8_t *)"org", 3, nums, 2, ASN1_TAG_UTF8String, (const uint8_t *)"explicit text", 13, &u, &unl) == 1;
+			ok &= asn1_ia5_string_to_der("http://cps.example/", 19, &c, &cpsl) == 1;
+			p = t1; ok &= x509_policy_qualifier_info_to_der(OID_qt_cps, cps, cpsl, &p, &l1) == 1; ok &= x509_policy_qualifier_info_to_der(OID_qt_unotice, un, unl, &p, &l1) == 1;
+			p = t2; ok &= x509_policy_information_to_der(OID_any_policy, NULL, 0, t1, l1, &p, &l2) == 1; ok &= x509_policy_information_to_der(OID_undef, oid1, 5, NULL, 0, &p, &l2) == 1;
+			ok &= x509_exts_add_certificate_policies(ex, &el, sizeof ex, -1, t2, l2) == 1; }
+		p = t1; l1 = 0; ok &= x509_policy_mapping_to_der(OID_undef, oid1, 5, OID_undef, oid2, 5, &p, &l1) == 1; ok &= x509_exts_add_policy_mappings(ex, &el, sizeof ex, X509_critical, t1, l1) == 1;
+		ok &= x509_exts_add_subject_alt_name(ex, &el, sizeof ex, -1, gns, gl) == 1;
+		ok &= x509_exts_add_issuer_alt_name(ex, &el, sizeof ex, -1, gns, gl) == 1;
+		p = t1; l1 = 0; ok &= x509_attribute_to_der(oid1, 5, val, sizeof val, &p, &l1) == 1; ok &= x509_exts_add_subject_directory_attributes(ex, &el, sizeof ex, -1, t1, l1) == 1;
+		p = t1; l1 = 0; ok &= x509_general_subtree_to_der(X509_gn_dns_name, (const uint8_t *)"example.org", 11, -1, -1, &p, &l1) == 1;
+		p = t2; l2 = 0; ok &= x509_general_subtree_to_der(X509_gn_rfc822_name, (const uint8_t *)"x@example.org", 13, 2, 7, &p, &l2) == 1;
+		ok &= x509_exts_add_name_constraints(ex, &el, sizeof ex, X509_critical, t1, l1, t2, l2) == 1;
+		ok &= x509_exts_add_policy_constraints(ex, &el, sizeof ex, X509_critical, 2, 3) == 1;
+		ok &= x509_exts_add_basic_constraints(ex, &el, sizeof ex, X509_critical, 1, 4) == 1;
+		ok &= x509_exts_add_ext_key_usage(ex, &el, sizeof ex, -1, eku, 3) == 1;
+		ok &= x509_exts_add_crl_distribution_points(ex, &el, sizeof ex, -1, uri, strlen(uri), NULL, 0) == 1;
+		ok &= x509_exts_add_inhibit_any_policy(ex, &el, sizeof ex, X509_critical, 5) == 1;
+		ok &= x509_exts_add_authority_info_access(ex, &el, sizeof ex, 0, uri, strlen(uri), uri2, strlen(uri2)) == 1;
+		if (!ok) { printf("ERR build"); fclose(fp); return; }
+		if (x509_cert_sign_to_der(X509_version_v3, serial, 4, OID_sm2sign_with_sm3, name, namelen, 1699990000, 1700090000, name, namelen, &keys[1], raw, 8, raw, 9,
+			ex, el, &keys[1], SM2_DEFAULT_ID, SM2_DEFAULT_ID_LENGTH, NULL, &clen) != 1) { printf("ERR sign"); fclose(fp); return; }
+		cert = malloc(clen); q = cert; clen = 0;
+		x509_cert_sign_to_der(X509_version_v3, serial, 4, OID_sm2sign_with_sm3, name, namelen, 1699990000, 1700090000, name, namelen, &keys[1], raw, 8, raw, 9,
+			ex, el, &keys[1], SM2_DEFAULT_ID, SM2_DEFAULT_ID_LENGTH, &q, &clen);
+		r_top = x509_cert_print(fp, 0, 0, "Certificate", cert, clen);
+		r_more = x509_certs_print(fp, 0, 0, "Certificates", cert, clen);
+		{	uint8_t two[600]; uint8_t *tp = two; size_t tl = 0; asn1_sequence_to_der(name, namelen, &tp, &tl); asn1_sequence_to_der(name, namelen, &tp, &tl);
+			r_more = r_more == 1 && x509_names_print(fp, 0, 0, "Names", two, tl) == 1 && x509_netscape_cert_type_print(fp, 0, 0, "netscapeCertType", 0xff) == 1
+				&& x509_directory_name_print(fp, 0, 0, "directoryName", ASN1_TAG_UTF8String, (const uint8_t *)"text", 4) == 1; }
+		if (x509_cert_get_exts(cert, clen, &e2, &e2l) == 1) r_exts = x509_exts_print(fp, 0, 0, "Extensions", e2, e2l);
+		free(cert);
+	} else if (!strcmp(kind, "crl")) {
+		uint8_t rev[1024]; size_t rl = 0; buf_t iss = { name, namelen }, exb; blob_t rv, c; const uint8_t *e2 = NULL, *r2 = NULL; size_t e2l = 0, r2l = 0;
+		p = rev; ok &= x509_revoked_cert_to_der_ex(serial, 4, 1699999000, X509_cr_key_compromise, 1699998000, gns, gl, &p, &rl) == 1;
+		serial[0] = 8; ok &= x509_revoked_cert_to_der_ex(serial, 4, 1699999500, -1, -1, NULL, 0, &p, &rl) == 1;
+		ok &= x509_crl_exts_add_authority_key_identifier(ex, &el, sizeof ex, -1, raw, 20, gns, gl, serial, 4) == 1;
+		ok &= x509_crl_exts_add_issuer_alt_name(ex, &el, sizeof ex, -1, gns, gl) == 1;
+		ok &= x509_crl_exts_add_crl_number(ex, &el, sizeof ex, -1, 17) == 1;
+		ok &= x509_crl_exts_add_delta_crl_indicator(ex, &el, sizeof ex, X509_critical, 3) == 1;
+		ok &= x509_crl_exts_add_issuing_distribution_point(ex, &el, sizeof ex, X509_critical, uri, strlen(uri), 1, -1, 5, -1, -1) == 1;
+		ok &= x509_crl_exts_add_freshest_crl(ex, &el, sizeof ex, -1, uri, strlen(uri), NULL, 0) == 1;
+		ok &= x509_crl_exts_add_authority_info_acess(ex, &el, sizeof ex, 0, uri, strlen(uri), uri2, strlen(uri2)) == 1;
+		if (!ok) { printf("ERR build"); fclose(fp); return; }
+		exb.p = ex; exb.n = el; rv.p = rev; rv.n = rl;
+		c = issue_crl_raw(X509_version_v2, iss, 1699990000, 1700090000, rv, exb, 1);
+		if (!c.p) { printf("ERR sign"); fclose(fp); return; }
+		r_top = x509_crl_print(fp, 0, 0, "CRL", c.p, c.n);
+		if (x509_crl_get_details(c.p, c.n, NULL, NULL, NULL, NULL, NULL, NULL, &r2, &r2l, &e2, &e2l, NULL, NULL, NULL) == 1) {
+			const uint8_t *q2 = e2, *sn, *ee; size_t q2l = e2l, snl, eel; time_t rd; const uint8_t *x; size_t xl; int oid = -9;
+			r_exts = x509_crl_exts_print(fp, 0, 0, "Extensions", e2, e2l); r_more = x509_revoked_certs_print(fp, 0, 0, "Revoked", r2, r2l);
+			r_more = r_more == 1 && x509_crls_print(fp, 0, 0, "CRLs", c.p, c.n) == 1;
+			/* first extension: SEQUENCE { extnID ... }: the identifier reader names authorityKeyIdentifier */
+			r_more = r_more && asn1_sequence_from_der(&x, &xl, &q2, &q2l) == 1 && x509_crl_ext_id_from_der(&oid, &x, &xl) == 1 && oid == OID_ce_authority_key_identifier;
+			/* first entry carries reason / invalidity date / certificate issuer as the library writes them: the entry-extension check accepts */
+			r_more = r_more && x509_revoked_cert_from_der(&sn, &snl, &rd, &ee, &eel, &r2, &r2l) == 1 && ee && x509_crl_entry_exts_check(ee, eel) == 1; }
+		free(c.p);
+	} else if (!strcmp(kind, "req")) {
+		uint8_t req[1024]; size_t ql = 0; p = req;
+		if (x509_req_sign_to_der(X509_version_v1, name, namelen, &keys[1], name, 0, OID_sm2sign_with_sm3, &keys[1], SM2_DEFAULT_ID, SM2_DEFAULT_ID_LENGTH, &p, &ql) != 1) { printf("ERR sign"); fclose(fp); return; }
+		r_top = x509_req_print(fp, 0, 0, "Request", req, ql); r_exts = 1;
+	} else { printf("ERR kind"); fclose(fp); return; }
+	fflush(fp); size = ftell(fp); fclose(fp);
+	printf("top=%d exts=%d more=%d name=%d gns=%d text=%d", r_top, r_exts, r_more, r_name, r_gns, size > 200);
+}
+/* ---- names <table>: every identifier of a table has a name and the name leads back to it; an unknown name is refused */
+static void do_names(const char *tab) {
+	int lo = 0, hi = 400, id, n = 0, bad = 0, unk; const char *s;
+#define TAB(nm, to_name, from_name, unk_expr) if (!strcmp(tab, nm)) { for (id = lo; id < hi; id++) { s = to_name(id); if (s) { n++; if (from_name(s) != id) bad++; } } unk = (unk_expr); printf("named>0=%d wrong-way-back=%d unknown-refused=%d", n > 0, bad, unk); return; }
+	TAB("name_type", x509_name_type_name, x509_name_type_from_name, x509_name_type_from_name("no-such") <= 0)
+	TAB("ext_id", x509_ext_id_name, x509_ext_id_from_name, x509_ext_id_from_name("no-such") <= 0)
+	TAB("qualifier_id", x509_qualifier_id_name, x509_qualifier_id_from_name, x509_qualifier_id_from_name("no-such") <= 0)
+	TAB("cert_policy_id", x509_cert_policy_id_name, x509_cert_policy_id_from_name, x509_cert_policy_id_from_name("no-such") <= 0)
+	TAB("key_purpose", x509_key_purpose_name, x509_key_purpose_from_name, x509_key_purpose_from_name("no-such") <= 0)
+	TAB("access_method", x509_access_method_name, x509_access_method_from_name, x509_access_method_from_name("no-such") <= 0)
+	TAB("crl_entry_ext_id", x509_crl_entry_ext_id_name, x509_crl_entry_ext_id_from_name, x509_crl_entry_ext_id_from_name("no-such") <= 0)
+	TAB("crl_ext_id", x509_crl_ext_id_name, x509_crl_ext_id_from_name, x509_crl_ext_id_from_name("no-such") <= 0)
+#undef TAB
+	if (!strcmp(tab, "crl_reason")) { for (id = 0; id < 16; id++) { int back = -9; s = x509_crl_reason_name(id); if (s) { n++; if (x509_crl_reason_from_name(&back, s) != 1 || back != id) bad++; } }
+		{ int back; unk = x509_crl_reason_from_name(&back, "no-such") != 1; } printf("named>0=%d wrong-way-back=%d unknown-refused=%d", n > 0, bad, unk); return; }
+	if (!strcmp(tab, "key_usage") || !strcmp(tab, "revoke_reason_flag")) { int ku = !strcmp(tab, "key_usage");
+		for (id = 0; id < 9; id++) { int flag = 1 << id, back = -9; s = ku ? x509_key_usage_name(flag) : x509_revoke_reason_flag_name(flag);
+			if (s) { n++; if ((ku ? x509_key_usage_from_name(&back, s) : x509_revoke_reason_flag_from_name(&back, s)) != 1 || back != flag) bad++; } }
+		{ int back; unk = (ku ? x509_key_usage_from_name(&back, "no-such") : x509_revoke_reason_flag_from_name(&back, "no-such")) != 1; }
+		printf("named>0=%d wrong-way-back=%d unknown-refused=%d", n > 0, bad, unk); return; }
+	if (!strcmp(tab, "version")) { printf("named>0=%d wrong-way-back=0 unknown-refused=%d", x509_version_name(X509_version_v1) && x509_version_name(X509_version_v2) && x509_version_name(X509_version_v3), x509_version_name(9) == NULL); return; }
+	if (!strcmp(tab, "key_purpose_text")) { printf("named>0=%d wrong-way-back=0 unknown-refused=%d", x509_key_purpose_text(OID_kp_server_auth) != NULL, x509_key_purpose_text(0) == NULL); return; }
+	printf("ERR table");
+}
+
 /* ------------------------------------------------------------------ single-bit modifications */
 static void do_flipall(size_t nw, char **w) {
 	const char *kind = w[1]; size_t step = strtoul(w[2], NULL, 10), off = strtoul(w[3], NULL, 10), i; int b;
@@ -757,6 +1015,10 @@ static void handle(size_t nw, char **w) {
 	else if (!strcmp(w[0], "crlcheck") && nw == 9) do_crlcheck(w);
 	else if (!strcmp(w[0], "reusebuf") && nw == 2) do_reusebuf(w[1]);
 	else if (!strcmp(w[0], "certsidx") && nw == 4) do_certsidx(w);
+	else if (!strcmp(w[0], "payload") && nw == 3) do_payload(w[1], atoi(w[2]));
+	else if (!strcmp(w[0], "pemrt") && nw == 2) do_pemrt(w[1]);
+	else if (!strcmp(w[0], "printall") && nw == 2) do_printall(w[1]);
+	else if (!strcmp(w[0], "names") && nw == 2) do_names(w[1]);
 	else if (!strcmp(w[0], "gnames") && nw == 3) do_gnames(w[1], atoi(w[2]));
 	else if (!strcmp(w[0], "crlchk") && nw == 6) do_crlchk(w);
 	else if (!strcmp(w[0], "revokeex") && nw == 7) do_revokeex(w);
